@@ -1,4 +1,4 @@
-CONSTANTS Q = 2 NClient = 2 NServer = 1 Calls = {k1, k2} CloseClosesChan = TRUE DrainByCount = FALSE
+CONSTANTS Q = 2 NClient = 2 NServer = 1 Calls = {k1, k2} CloseClosesChan = TRUE DrainByCount = FALSE SweepDone = FALSE
 INIT Init
 NEXT Next
 CHECK_DEADLOCK FALSE
